@@ -51,7 +51,9 @@ var (
 
 	protoOffers = [][]string{nil, {"chat"}, {"chat, superchat"}, {"mqtt", "json, chat.v2"}, {"chat.v2 ,json"}, {"x-1,x-2,x-3,json"},
 		// names differing only in letter case / prefixes of an accepted name: selection is exact and in client order
-		{"JSON, json"}, {"Chat.v2", "chat.V2, chat.v2, json"}, {"chat.v, chat.v22, jso, proto-1x, proto-19"}}
+		{"JSON, json"}, {"Chat.v2", "chat.V2, chat.v2, json"}, {"chat.v, chat.v22, jso, proto-1x, proto-19"},
+		// a long offer: the acceptable name comes twelfth, behind names nobody accepts (one line; and over three lines)
+		{"x-1, x-2, x-3, x-4, x-5, x-6, x-7, x-8, x-9, x-10, x-11, json, chat.v2"}, {"x-1, x-2, x-3, x-4, x-5", "x-6, x-7, x-8, x-9", "x-10, x-11, x-12, chat.v2, json"}}
 	extOffers = [][]string{nil, {"permessage-deflate"}, {"permessage-deflate; client_max_window_bits"}, {"foo; a=1, bar"}, {"permessage-deflate; server_no_context_takeover", "x-webkit-deflate-frame"}, {"bar; q=\"quoted v\"; z"},
 		// several offers per line over three lines (a selector that takes them all returns six options, in order)
 		{"foo; a=1, barbar; bb=22", "bazbazbaz; c=3", "q, permessage-deflate; client_max_window_bits, zz; y"}}
